@@ -3,6 +3,7 @@ module verif/engine
 go 1.21
 
 require (
+	github.com/anz-bank/golden-retriever v0.43.0
 	github.com/anz-bank/sysl v0.0.0
 	github.com/sirupsen/logrus v1.9.3
 	github.com/spf13/afero v1.11.0
@@ -13,7 +14,6 @@ require (
 	dario.cat/mergo v1.0.0 // indirect
 	github.com/ProtonMail/go-crypto v1.0.0 // indirect
 	github.com/antlr/antlr4/runtime/Go/antlr v0.0.0-20211115101625-aeaa445b4d4f // indirect
-	github.com/anz-bank/golden-retriever v0.43.0 // indirect
 	github.com/anz-bank/pkg v0.0.48 // indirect
 	github.com/arr-ai/arrai v0.321.0 // indirect
 	github.com/arr-ai/frozen v0.20.3 // indirect
